@@ -2408,6 +2408,7 @@ def _rewrite_nodes(nodes: List[object], promoted: Set[str]) -> List[object]:
                     count=node.count,
                     body=_rewrite_nodes(node.body, promoted),
                     hoist_count=node.hoist_count,
+                    private_counter=node.private_counter,
                 )
             )
             continue
@@ -3202,6 +3203,7 @@ def _parse_simple_lines(
                     count=count,
                     body=loop_body,
                     hoist_count=hoist_count,
+                    private_counter=var_name in _names_bound_in_block(block),
                 )
             )
             i = next_idx
